@@ -39,12 +39,30 @@ func (it *Interp) freshName(prefix string) string {
 }
 
 // declare introduces a symbolic constant for an Any* harness input.
-func (it *Interp) declareAny(tag string, sort Sort, kind string) *Sym {
+// nextTag numbers repeated uses of a tag (tag, tag#1, tag#2, ...), identically in every mode.
+func (it *Interp) nextTag(tag string) string {
 	n := it.tagSeen[tag]
 	it.tagSeen[tag] = n + 1
 	if n > 0 {
 		tag = fmt.Sprintf("%s#%d", tag, n)
 	}
+	return tag
+}
+
+// pinned: in concrete re-execution mode every harness input has the value of the counterexample model.
+func (it *Interp) pinned(tag string) (string, bool) {
+	if it.R.Pinned == nil {
+		return "", false
+	}
+	v, ok := it.R.Pinned[tag]
+	if !ok {
+		v = "0"
+	}
+	return v, true
+}
+
+func (it *Interp) declareAny(tag string, sort Sort, kind string) *Sym {
+	tag = it.nextTag(tag)
 	name := "|" + identRe.ReplaceAllString(tag, "_") + "|"
 	s := "Int"
 	if sort == SBool {
